@@ -81,7 +81,13 @@ func genReqCtx(t *rapid.T) (*reqCtx, bool) {
 		if lim(l.MaxTagNameLength, len(e.K)) || lim(l.MaxTagValueLength, len(e.V)) {
 			continue
 		}
+		if len(rc.Enriched) == 1 && rc.Enriched[0].K == e.K {
+			continue // the same enrich key twice in one URL: not an interesting request
+		}
 		rc.Enriched = append(rc.Enriched, e)
+	}
+	if max := l.MaxTagsPerMetric; max > 0 && len(rc.Enriched) > max {
+		rc.Enriched = rc.Enriched[:max] // otherwise no metric at all could pass
 	}
 	return rc, custom
 }
@@ -370,7 +376,7 @@ func forInflux(m *am, rc *reqCtx) *am {
 		o.Tags = o.Tags[:keep]
 	}
 	if o.Name == "" && len(o.Tags) == 0 {
-		o.Tags = append(o.Tags, kv{"a", "1"})
+		o.Name = "n" // a line starting with a blank means something else
 	}
 	for _, f := range m.Fields {
 		n := clean(f.Name)
@@ -392,6 +398,10 @@ func forInflux(m *am, rc *reqCtx) *am {
 	}
 	if len(o.Fields) == 0 {
 		o.Fields = append(o.Fields, sfield{"v_last", tLast, 1})
+	}
+	if len(o.Tags) == 0 && len(o.Fields) >= 2 && ev.Known(sigInfluxNoTags) {
+		o.Fields = o.Fields[:1]
+		ev.Class("influx", "excluded_known", 1)
 	}
 	return o
 }
@@ -431,13 +441,18 @@ func genJunk(t *rapid.T, n int) []junk {
 // ---- known findings: shapes removed from the generator only while the finding is listed ----
 
 const (
+	// scanMetricName ends the measurement at the first unescaped comma even when a blank comes
+	// first, so a line without tags and with two or more fields ("m a_last=1,b_last=2 ts") is
+	// mis-split and refused.
+	sigInfluxNoTags = "C16/influx-no-tags-multi-field-line-rejected"
 	// deDupTags sorts with sort.Sort, which is not stable for more than 12 elements, so with
 	// > 12 tags "the last occurrence wins" does not hold and the surviving value (hence the
 	// series identity) depends on the position of unrelated tags.
 	sigProtoDedup = "C16/proto-dedup-unstable-sort-gt12-tags"
-	// same in RowBuilder.dedupTagsThenXXHash of github.com/lindb/common (flat path; the influx
-	// path de-duplicates in a map first and is not affected).
-	sigFlatDedup = "C16/flat-dedup-unstable-sort-gt12-tags"
+	// same in RowBuilder.dedupTagsThenXXHash of the dependency github.com/lindb/common, which the
+	// flat and influx paths use (influx: only an enriched tag can repeat a key; as the line's
+	// own tags are added in map order, the surviving value is even random there).
+	sigBuilderDedup = "C16/rowbuilder-dedup-unstable-sort-gt12-tags"
 	// validateMetric compares histogram values with "< 0" only: NaN and +Inf bucket values and
 	// NaN min/max/sum/count are accepted by the proto path (the flat path refuses them).
 	sigProtoCompNaN = "C16/proto-compound-nan-inf-accepted"
@@ -445,7 +460,7 @@ const (
 
 func excludeKnownShapes(group string, m *am, rc *reqCtx, f format) *am {
 	flatF := f == fFlatClient || f == fFlatRaw
-	if (f == fProto && ev.Known(sigProtoDedup)) || (flatF && ev.Known(sigFlatDedup)) {
+	if (f == fProto && ev.Known(sigProtoDedup)) || ((flatF || f == fInflux) && ev.Known(sigBuilderDedup)) {
 		all := append(append([]kv{}, m.Tags...), rc.Enriched...)
 		if len(all) > 12 && hasDupKeys(all) {
 			// keep, per key, only the occurrence that is documented to win
